@@ -336,12 +336,16 @@ theorem kubeBE_after (p : Pod) (pc : PC) (h : IsTier pc) (o : Option RL) (hb : k
   · simp [h1]
   · by_cases h2 : p.statusQoS = 2
     · simp [h1, h2] at hb
-    · simp only [h1, h2, if_false]
-      rw [List.all_eq_true]
-      intro c hc
-      simp only [List.mem_append, List.mem_map] at hc
-      rcases hc with ⟨c0, _, rfl⟩ | ⟨c0, _, rfl⟩ <;>
-        (obtain ⟨e1, e2, e3, e4⟩ := native_erased pc h c0; simp [ctrNoQoSResources, positive, e1, e2, e3, e4])
+    · simp only [h1, h2, if_false] at hb ⊢
+      cases hp : p.podRes with
+      | some rl => rw [hp] at hb; exact hb
+      | none =>
+        simp only []
+        rw [List.all_eq_true]
+        intro c hc
+        simp only [List.mem_append, List.mem_map] at hc
+        rcases hc with ⟨c0, _, rfl⟩ | ⟨c0, _, rfl⟩ <;>
+          (obtain ⟨e1, e2, e3, e4⟩ := native_erased pc h c0; simp [ctrNoQoSResources, positive, e1, e2, e3, e4])
 
 /-- the class that drives the translation is not changed by the translation (the default
     derived from the Kubernetes QoS stays BestEffort once cpu/memory are gone). -/
@@ -557,87 +561,138 @@ theorem readmission_pipeline_idempotent (k : Ranges) (p p' : Pod)
   exact hid
 
 /-! ### 7. re-admission over an arbitrary profile list
-`applyProfiles` is a fold of "overwrite the field with a constant or keep it"; it collapses to ONE such
-overwrite (`summaryFrom`), which is idempotent and commutes with every update of the container /
-overhead / annotation fields. -/
-
-/-- "overwrite with a constant or keep" -/
-def ovr {α} (o x : Option α) : Option α := match o with | some c => some c | none => x
+A profile without labelKeysMapping, labelSuffixes and patch ("simple") is an "overwrite the
+field with a constant or keep it" (`Net`); a fold of such profiles collapses to ONE overwrite
+(`summaryFrom`), which is idempotent and commutes with every update of the container / overhead /
+annotation fields.  Label suffixes and resource patches are genuinely not idempotent
+(`readmission_suffix_counterexample`, `readmission_patch_counterexample`). -/
 
 theorem ovr_idem {α} (o x : Option α) : ovr o (ovr o x) = ovr o x := by cases o <;> rfl
 theorem ovr_assoc {α} (a b x : Option α) : ovr b (ovr a x) = ovr (ovr b a) x := by cases a <;> cases b <;> rfl
 
-theorem applyProfile_eq (p : Pod) (pr : Profile) :
-    applyProfile p pr = { p with prioLabel := ovr pr.prioLabel p.prioLabel, qosLabel := ovr pr.qos p.qosLabel,
-                                 priority := ovr pr.priority p.priority, subPrio := ovr pr.subPrio p.subPrio } := by
-  cases h1 : pr.qos <;> cases h2 : pr.prioLabel <;> cases h3 : pr.priority <;> cases h4 : pr.subPrio <;>
-    simp [applyProfile, ovr, h1, h2, h3, h4]
+/-- no labelKeysMapping, no labelSuffixes, no patch. -/
+def Profile.simple (pr : Profile) : Bool := pr.keyMap.isEmpty && pr.suffixes.isEmpty && !pr.hasPatch
 
-/-- two profiles applied one after the other act like one profile. -/
-def mergeProfile (a b : Profile) : Profile :=
-  { a with prioLabel := ovr b.prioLabel a.prioLabel, qos := ovr b.qos a.qos,
-           priority := ovr b.priority a.priority, subPrio := ovr b.subPrio a.subPrio }
+/-- the constants a simple profile writes. -/
+structure Net where
+  lab : LKey → Option LStr
+  priority : Option Int
+  subPrio : Option Int
 
-def idProfile : Profile :=
-  { name := 0, matched := true, skipRes := false, prob := none, qos := none, prioLabel := none, priority := none, subPrio := none }
+def applyNet (p : Pod) (n : Net) : Pod :=
+  { p with labels := fun k => ovr (n.lab k) (p.labels k), priority := ovr n.priority p.priority,
+           subPrio := ovr n.subPrio p.subPrio }
 
-theorem applyProfile_merge (p : Pod) (a b : Profile) :
-    applyProfile (applyProfile p a) b = applyProfile p (mergeProfile a b) := by
-  simp only [applyProfile_eq, mergeProfile, ovr_assoc]
+def netOf (pr : Profile) : Net :=
+  { lab := setOpt (setLabels Labels.empty pr.labels) LKey.qos pr.qos,
+    priority := pr.priority,
+    subPrio := pr.subPrio }
 
-theorem applyProfile_id (p : Pod) : applyProfile p idProfile = p := by
+theorem setLabels_ovr (kvs : List (LKey × LStr)) (l : Labels) (k : LKey) :
+    setLabels l kvs k = ovr (setLabels Labels.empty kvs k) (l k) := by
+  induction kvs generalizing l with
+  | nil => rfl
+  | cons kv rest ih =>
+    have e1 : setLabels l (kv :: rest) = setLabels (l.set kv.1 kv.2) rest := rfl
+    have e2 : setLabels Labels.empty (kv :: rest) = setLabels (Labels.empty.set kv.1 kv.2) rest := rfl
+    rw [e1, e2, ih (l.set kv.1 kv.2), ih (Labels.empty.set kv.1 kv.2)]
+    by_cases hk : k = kv.1
+    · simp only [Labels.set, hk, if_true]
+      cases setLabels Labels.empty rest kv.1 <;> rfl
+    · simp only [Labels.set, hk, if_false, Labels.empty]
+      cases setLabels Labels.empty rest k <;> rfl
+
+theorem applyProfile_simple (p : Pod) (pr : Profile) (h : pr.simple = true) :
+    applyProfile p pr = applyNet p (netOf pr) := by
+  simp only [Profile.simple, Bool.and_eq_true, List.isEmpty_iff, Bool.not_eq_true'] at h
+  obtain ⟨⟨h1, h2⟩, h3⟩ := h
+  have hl : ∀ k, setOpt (addSuffixes (mapKeys (setLabels p.labels pr.labels) pr.keyMap) pr.suffixes) LKey.qos pr.qos k =
+      ovr ((netOf pr).lab k) (p.labels k) := by
+    intro k
+    rw [h1, h2]
+    simp only [mapKeys, addSuffixes, List.foldl_nil, netOf]
+    cases pr.qos with
+    | none => exact setLabels_ovr pr.labels p.labels k
+    | some q =>
+      simp only [setOpt]
+      by_cases hk : k = LKey.qos
+      · simp only [Labels.set, hk, if_true]; rfl
+      · simp only [Labels.set, hk, if_false]; exact setLabels_ovr pr.labels p.labels k
+  unfold applyProfile applyNet
+  simp only [h3, Bool.false_eq_true, if_false]
+  rw [funext hl]
+  rfl
+
+/-- two overwrites applied one after the other act like one. -/
+def mergeNet (a b : Net) : Net :=
+  { lab := fun k => ovr (b.lab k) (a.lab k), priority := ovr b.priority a.priority, subPrio := ovr b.subPrio a.subPrio }
+
+def idNet : Net := { lab := fun _ => none, priority := none, subPrio := none }
+
+theorem applyNet_merge (p : Pod) (a b : Net) : applyNet (applyNet p a) b = applyNet p (mergeNet a b) := by
+  simp only [applyNet, mergeNet, ovr_assoc]
+
+theorem applyNet_id (p : Pod) : applyNet p idNet = p := by
   cases p; rfl
 
 /-- the one overwrite a profile list amounts to (for a given random draw). -/
-def summaryFrom (rand : Int) (ps : List Profile) (s : Profile) : Profile :=
-  ps.foldl (fun acc pr => if shouldSkipProfile rand pr then acc else mergeProfile acc pr) s
+def summaryFrom (rand : Int) (ps : List Profile) (s : Net) : Net :=
+  ps.foldl (fun acc pr => if shouldSkipProfile rand pr then acc else mergeNet acc (netOf pr)) s
 
-theorem applyProfiles_from (rand : Int) (ps : List Profile) (s : Profile) (p : Pod) :
-    applyProfiles rand ps (applyProfile p s) = applyProfile p (summaryFrom rand ps s) := by
+/-- every profile that is applied (not skipped by its probability) is simple. -/
+def AppliedSimple (rand : Int) (ps : List Profile) : Prop :=
+  ∀ pr ∈ ps, shouldSkipProfile rand pr = false → pr.simple = true
+
+instance (rand : Int) (ps : List Profile) : Decidable (AppliedSimple rand ps) := by unfold AppliedSimple; infer_instance
+
+theorem applyProfiles_from (rand : Int) (ps : List Profile) (hs : AppliedSimple rand ps) (s : Net) (p : Pod) :
+    applyProfiles rand ps (applyNet p s) = applyNet p (summaryFrom rand ps s) := by
   induction ps generalizing s with
   | nil => rfl
   | cons pr rest ih =>
+    have hrest : AppliedSimple rand rest := fun x hx => hs x (List.mem_cons_of_mem _ hx)
     unfold applyProfiles summaryFrom
     simp only [List.foldl_cons]
-    by_cases hs : shouldSkipProfile rand pr = true
-    · simp only [hs, if_true]; exact ih s
-    · simp only [hs]
-      rw [applyProfile_merge]
-      exact ih (mergeProfile s pr)
+    by_cases hsk : shouldSkipProfile rand pr = true
+    · simp only [hsk, if_true]; exact ih hrest s
+    · simp only [hsk]
+      have hsimple := hs pr (List.mem_cons_self ..) (by simpa using hsk)
+      rw [applyProfile_simple _ _ hsimple, applyNet_merge]
+      exact ih hrest (mergeNet s (netOf pr))
 
-/-- `applyProfiles` is a single overwrite-or-keep of the four class fields. -/
-theorem applyProfiles_summary (rand : Int) (ps : List Profile) (p : Pod) :
-    applyProfiles rand ps p = applyProfile p (summaryFrom rand ps idProfile) := by
-  have := applyProfiles_from rand ps idProfile p
-  rwa [applyProfile_id] at this
+/-- `applyProfiles` over simple profiles is a single overwrite-or-keep of the class fields. -/
+theorem applyProfiles_summary (rand : Int) (ps : List Profile) (hs : AppliedSimple rand ps) (p : Pod) :
+    applyProfiles rand ps p = applyNet p (summaryFrom rand ps idNet) := by
+  have := applyProfiles_from rand ps hs idNet p
+  rwa [applyNet_id] at this
 
 /-- same class fields (labels, priority, sub-priority). -/
 def SameMeta (q r : Pod) : Prop :=
-  q.prioLabel = r.prioLabel ∧ q.qosLabel = r.qosLabel ∧ q.priority = r.priority ∧ q.subPrio = r.subPrio
+  q.labels = r.labels ∧ q.priority = r.priority ∧ q.subPrio = r.subPrio
 
-theorem applyProfile_fixed (p q : Pod) (s : Profile) (h : SameMeta q (applyProfile p s)) : applyProfile q s = q := by
-  obtain ⟨h1, h2, h3, h4⟩ := h
-  rw [applyProfile_eq] at h1 h2 h3 h4
-  simp only [] at h1 h2 h3 h4
-  rw [applyProfile_eq, h1, h2, h3, h4]
-  simp only [ovr_idem]
-  rw [← h1, ← h2, ← h3, ← h4]
+theorem applyNet_fixed (p q : Pod) (s : Net) (h : SameMeta q (applyNet p s)) : applyNet q s = q := by
+  obtain ⟨h1, h2, h3⟩ := h
+  cases q with
+  | mk l pv sp st is cs ov an pl =>
+    simp only [applyNet] at h1 h2 h3 ⊢
+    subst h1 h2 h3
+    simp only [ovr_idem]
 
 /-- applying the profiles to a pod that already carries their class fields changes nothing
     (idempotence + commutation with any update of containers / overhead / annotation). -/
-theorem applyProfiles_fixed (rand : Int) (ps : List Profile) (p q : Pod) (h : SameMeta q (applyProfiles rand ps p)) :
-    applyProfiles rand ps q = q := by
-  rw [applyProfiles_summary] at h ⊢
-  exact applyProfile_fixed p q _ h
+theorem applyProfiles_fixed (rand : Int) (ps : List Profile) (hs : AppliedSimple rand ps) (p q : Pod)
+    (h : SameMeta q (applyProfiles rand ps p)) : applyProfiles rand ps q = q := by
+  rw [applyProfiles_summary rand ps hs] at h ⊢
+  exact applyNet_fixed p q _ h
 
-theorem applyProfiles_idempotent (rand : Int) (ps : List Profile) (p : Pod) :
+theorem applyProfiles_idempotent (rand : Int) (ps : List Profile) (hs : AppliedSimple rand ps) (p : Pod) :
     applyProfiles rand ps (applyProfiles rand ps p) = applyProfiles rand ps p :=
-  applyProfiles_fixed rand ps p _ ⟨rfl, rfl, rfl, rfl⟩
+  applyProfiles_fixed rand ps hs p _ ⟨rfl, rfl, rfl⟩
 
 theorem sameMeta_mutate (k : Ranges) (p : Pod) : SameMeta (mutatePodResourceSpec k p) p := by
   unfold mutatePodResourceSpec SameMeta
   simp only []
-  split <;> exact ⟨rfl, rfl, rfl, rfl⟩
+  split <;> exact ⟨rfl, rfl, rfl⟩
 
 /-- the summary step only ever rewrites the annotation. -/
 theorem mutateByExt_form (q p' : Pod) (h : mutateByExt q = some p') : ∃ a, p' = { q with annot := a } := by
@@ -669,14 +724,44 @@ theorem colocationMutate_create_fst (k : Ranges) (gate : Bool) (rand : Int) (ps 
   · rfl
   · split <;> rfl
 
-/-- 7. `idempotent`, full statement: re-admission idempotence of the first two steps of handleCreate: for every profile list,
-    feature gate and random draw, admitting an admitted pod again (same profiles, same draw)
-    returns it unchanged. -/
+theorem mem_insertProfile (x pr : Profile) (l : List Profile) : x ∈ insertProfile pr l → x = pr ∨ x ∈ l := by
+  induction l with
+  | nil => intro h; simp only [insertProfile, List.mem_singleton] at h; exact Or.inl h
+  | cons y ys ih =>
+    unfold insertProfile
+    split
+    · intro h; rcases List.mem_cons.mp h with h | h
+      · exact Or.inl h
+      · exact Or.inr h
+    · intro h; rcases List.mem_cons.mp h with h | h
+      · exact Or.inr (h ▸ List.mem_cons_self ..)
+      · rcases ih h with h | h
+        · exact Or.inl h
+        · exact Or.inr (List.mem_cons_of_mem _ h)
+
+theorem mem_sortProfiles (x : Profile) (l : List Profile) : x ∈ sortProfiles l → x ∈ l := by
+  induction l with
+  | nil => intro h; exact h
+  | cons y ys ih =>
+    intro h
+    have h' : x ∈ insertProfile y (sortProfiles ys) := h
+    rcases mem_insertProfile _ _ _ h' with h | h
+    · exact h ▸ List.mem_cons_self ..
+    · exact List.mem_cons_of_mem _ (ih h)
+
+/-- 7. `idempotent`, full statement over arbitrary profile lists: for every list of colocation
+    profiles whose matching, applied members are simple (no labelKeysMapping / labelSuffixes /
+    patch — the harness evaluates the same predicate and demands idempotence exactly
+    there), every feature gate and random draw, admitting an admitted pod again (same profiles,
+    same draw) returns it unchanged. -/
 theorem readmission_idempotent (k : Ranges) (gate : Bool) (rand : Int) (ps : List Profile) (p p' : Pod)
+    (hs : AppliedSimple rand (ps.filter (·.matched)))
     (h : admitCreate k gate rand ps p = some p') : admitCreate k gate rand ps p' = some p' := by
   unfold admitCreate at h ⊢
   rw [colocationMutate_create_fst] at h ⊢
-  generalize sortProfiles (ps.filter (·.matched)) = ms at h ⊢
+  have hms : AppliedSimple rand (sortProfiles (ps.filter (·.matched))) :=
+    fun x hx => hs x (mem_sortProfiles _ _ hx)
+  generalize sortProfiles (ps.filter (·.matched)) = ms at h hms ⊢
   by_cases he : ms.isEmpty = true
   · rw [if_pos he] at h ⊢
     exact mutateByExt_idempotent _ _ h
@@ -685,7 +770,7 @@ theorem readmission_idempotent (k : Ranges) (gate : Bool) (rand : Int) (ps : Lis
     · rw [if_pos hsk] at h ⊢
       obtain ⟨a, rfl⟩ := mutateByExt_form _ _ h
       have hfix : applyProfiles rand ms { applyProfiles rand ms p with annot := a } = { applyProfiles rand ms p with annot := a } :=
-        applyProfiles_fixed rand ms p _ ⟨rfl, rfl, rfl, rfl⟩
+        applyProfiles_fixed rand ms hms p _ ⟨rfl, rfl, rfl⟩
       rw [hfix]
       exact mutateByExt_idempotent _ _ h
     · rw [if_neg hsk] at h ⊢
@@ -694,10 +779,9 @@ theorem readmission_idempotent (k : Ranges) (gate : Bool) (rand : Int) (ps : Lis
       have hm := sameMeta_mutate k (applyProfiles rand ms p)
       have hfix : applyProfiles rand ms { mutatePodResourceSpec k (applyProfiles rand ms p) with annot := a } =
           { mutatePodResourceSpec k (applyProfiles rand ms p) with annot := a } :=
-        applyProfiles_fixed rand ms p _ hm
+        applyProfiles_fixed rand ms hms p _ hm
       rw [hfix]
       exact readmission_pipeline_idempotent k _ _ h'
-
 
 /-! ### non-vacuity -/
 
@@ -717,7 +801,7 @@ example : (mutateCtr PC.batch exCtr).req Res.batchCPU = some 1000000000 ∧     
           (mutateCtr PC.batch exCtr).req Res.cpu = none := by decide
 
 def exPod (q : QoS) (prio : Int) : Pod :=
-  { qosLabel := some q, prioLabel := none, priority := some prio, subPrio := none, statusQoS := 0,
+  { labels := Labels.empty.set LKey.qos (qosName q), priority := some prio, subPrio := none, statusQoS := 0,
     inits := [], ctrs := [exCtr], overhead := none, annot := Annot.absent }
 
 example : validateAllowed stdRanges false 0 (exPod QoS.be 5500) (exPod QoS.be 5500) = true ∧
@@ -730,5 +814,49 @@ example : ∃ p', mutateByExt (mutatePodResourceSpec stdRanges (exPod QoS.be 550
                             lim := ⟨some 1500000000000, some 1073741824000000000⟩ }] :=
   ⟨_, rfl, by decide⟩
 
+/-! ### re-admission: the hypothesis is satisfiable and needed -/
+
+/-- a simple profile: QoS BE, priority 5500, one foreign label. -/
+def exProfile : Profile :=
+  { name := 1, matched := true, skipRes := false, prob := none, qos := some (qosName QoS.be), priority := some 5500,
+    subPrio := none, labels := [(LKey.src, [120])] }
+
+example : AppliedSimple 0 ([exProfile].filter (·.matched)) := by decide
+
+example : ∃ p', admitCreate stdRanges false 0 [exProfile] (exPod QoS.ls 9500) = some p' ∧
+    p'.labels LKey.qos = some (qosName QoS.be) ∧ p'.priority = some 5500 ∧
+    p'.ctrs.map (fun c => c.req Res.batchCPU) = [some 1000000000] :=
+  ⟨_, rfl, by decide⟩
+
+/-- a profile that appends "x" to the QoS label (and skips the translation). -/
+def sfxProfile : Profile :=
+  { name := 0, matched := true, skipRes := true, prob := none, qos := none, priority := none, subPrio := none,
+    suffixes := [(LKey.qos, [120])] }
+
+/-- the hypothesis of `readmission_idempotent` is needed: a label suffix is appended again. -/
+theorem readmission_suffix_counterexample :
+    ∃ p', admitCreate stdRanges false 0 [sfxProfile] (exPod QoS.be 5500) = some p' ∧
+          admitCreate stdRanges false 0 [sfxProfile] p' ≠ some p' := by
+  refine ⟨_, rfl, ?_⟩
+  intro h
+  have h2 := congrArg (fun o => o.map (fun q => q.labels LKey.qos)) h
+  revert h2
+  decide
+
+/-- a profile whose patch sets requests[batch-cpu] = 100 on container 0. -/
+def patchProfile : Profile :=
+  { name := 0, matched := true, skipRes := false, prob := none, qos := none, priority := none, subPrio := none,
+    hasPatch := true, patchRes := [{ ctr := 0, isLimit := false, res := Res.batchCPU, q := 100000000000 }] }
+
+/-- ... and so is a resource patch: on first admission the native cpu request overrides the patched
+    batch-cpu request, on re-admission the patch wins. -/
+theorem readmission_patch_counterexample :
+    ∃ p', admitCreate stdRanges false 0 [patchProfile] (exPod QoS.be 5500) = some p' ∧
+          admitCreate stdRanges false 0 [patchProfile] p' ≠ some p' := by
+  refine ⟨_, rfl, ?_⟩
+  intro h
+  have h2 := congrArg (fun o => o.map (fun q => q.ctrs.map (fun c => c.req Res.batchCPU))) h
+  revert h2
+  decide
 
 end KoordVerif.C13
